@@ -13,6 +13,8 @@ structure Good (e : Env) (as : State) (i : Nat) (w : W) : Prop where
   g : G e as
   rn : RN e as i w.nd
   outs : ∀ pl, Out.bcast pl ∈ w.out → Claims e as pl
+  /-- every block handed to the ledger so far carries signatures of that block only -/
+  blk : ∀ b sigs, Out.block b sigs ∈ w.out → ∀ s ∈ sigs, s.2 = true
   st : w.nd.bi ≠ 0
   lt : i < e.n
 
@@ -37,31 +39,35 @@ theorem Good.congr {e : Env} {as : State} {i : Nat} {w w' : W} (h : Good e as i 
     (h1 : w'.nd.my = w.nd.my) (h2 : w'.nd.prep = w.nd.prep) (h3 : w'.nd.commit = w.nd.commit) (h4 : w'.nd.cv = w.nd.cv)
     (h5 : w'.nd.lastCv = w.nd.lastCv) (h6 : w'.nd.chain = w.nd.chain) (h7 : w'.nd.bi = w.nd.bi)
     (h8 : w'.nd.view = w.nd.view) (h9 : w'.nd.pidx = w.nd.pidx) (h10 : w.nd.blockProcessed = true → w'.nd.blockProcessed = true)
-    (h11 : w'.nd.cache = w.nd.cache) (ho : ∀ pl, Out.bcast pl ∈ w'.out → Out.bcast pl ∈ w.out) : Good e as i w' :=
-  ⟨h.g, h.rn.congr h1 h2 h3 h4 h5 h6 h7 h8 h9 h10 h11, fun pl hp => h.outs pl (ho pl hp), by rw [h7]; exact h.st, h.lt⟩
+    (h11 : w'.nd.cache = w.nd.cache) (ho : ∀ pl, Out.bcast pl ∈ w'.out → Out.bcast pl ∈ w.out)
+    (hb : ∀ b s, Out.block b s ∈ w'.out → Out.block b s ∈ w.out) : Good e as i w' :=
+  ⟨h.g, h.rn.congr h1 h2 h3 h4 h5 h6 h7 h8 h9 h10 h11, fun pl hp => h.outs pl (ho pl hp),
+   fun b s hp => h.blk b s (hb b s hp), by rw [h7]; exact h.st, h.lt⟩
 
 theorem good_changeTimer {e : Env} {as : State} {i : Nat} {w : W} (h : Good e as i w) (d : Nat) :
     Good e as i (changeTimer w d) := by
-  apply h.congr <;> first | rfl | exact id | (intro pl hp; simpa [changeTimer, W.emit, W.upd] using hp)
+  apply h.congr <;> first | rfl | exact id | (intro pl hp; simpa [changeTimer, W.emit, W.upd] using hp) | (intro b s hp; simpa [changeTimer, W.emit, W.upd] using hp)
 
 theorem good_extendTimer {e : Env} {as : State} {i : Nat} {w : W} (h : Good e as i w) (cnt : Nat) :
     Good e as i (extendTimer e w cnt) := by
   unfold extendTimer
   split
-  · apply h.congr <;> first | rfl | exact id | (intro pl hp; simpa [W.emit, W.upd] using hp)
+  · apply h.congr <;> first | rfl | exact id | (intro pl hp; simpa [W.emit, W.upd] using hp) | (intro b s hp; simpa [W.emit, W.upd] using hp)
   · exact h
 
 theorem good_stopTx {e : Env} {as : State} {i : Nat} {w : W} (h : Good e as i w) : Good e as i (stopTx w) := by
-  apply h.congr <;> first | rfl | exact id | (intro pl hp; simpa [stopTx, W.emit, W.upd] using hp)
+  apply h.congr <;> first | rfl | exact id | (intro pl hp; simpa [stopTx, W.emit, W.upd] using hp) | (intro b s hp; simpa [stopTx, W.emit, W.upd] using hp)
 
 theorem good_bcast {e : Env} {as : State} {i : Nat} {w : W} (h : Good e as i w) (pl : Pl) (hc : Claims e as pl) :
     Good e as i (bcast w pl) := by
-  refine ⟨h.g, h.rn, ?_, h.st, h.lt⟩
-  intro p hp
-  simp only [bcast, W.emit, List.mem_cons, Out.bcast.injEq] at hp
-  rcases hp with rfl | hp
-  · exact hc
-  · exact h.outs p hp
+  refine ⟨h.g, h.rn, ?_, ?_, h.st, h.lt⟩
+  · intro p hp
+    simp only [bcast, W.emit, List.mem_cons, Out.bcast.injEq] at hp
+    rcases hp with rfl | hp
+    · exact hc
+    · exact h.outs p hp
+  · intro b s hp
+    exact h.blk b s (by simpa [bcast, W.emit] using hp)
 
 /-- a change of fields the relation does not look at -/
 theorem good_upd {e : Env} {as : State} {i : Nat} {w : W} (h : Good e as i w) (f : Node → Node)
@@ -70,14 +76,15 @@ theorem good_upd {e : Env} {as : State} {i : Nat} {w : W} (h : Good e as i w) (f
     (h7 : (f w.nd).bi = w.nd.bi) (h8 : (f w.nd).view = w.nd.view) (h9 : (f w.nd).pidx = w.nd.pidx)
     (h10 : w.nd.blockProcessed = true → (f w.nd).blockProcessed = true) (h11 : (f w.nd).cache = w.nd.cache) :
     Good e as i (w.upd f) :=
-  h.congr h1 h2 h3 h4 h5 h6 h7 h8 h9 h10 h11 (fun _ hp => hp)
+  h.congr h1 h2 h3 h4 h5 h6 h7 h8 h9 h10 h11 (fun _ hp => hp) (fun _ _ hp => hp)
 
 theorem processMissingTx_frame (e : Env) (w : W) :
     let w' := processMissingTx e w
     w'.nd.my = w.nd.my ∧ w'.nd.prep = w.nd.prep ∧ w'.nd.commit = w.nd.commit ∧ w'.nd.cv = w.nd.cv ∧
     w'.nd.lastCv = w.nd.lastCv ∧ w'.nd.chain = w.nd.chain ∧ w'.nd.bi = w.nd.bi ∧ w'.nd.view = w.nd.view ∧
     w'.nd.pidx = w.nd.pidx ∧ w'.nd.blockProcessed = w.nd.blockProcessed ∧ w'.nd.cache = w.nd.cache ∧
-    (∀ pl, Out.bcast pl ∈ w'.out → Out.bcast pl ∈ w.out) := by
+    (∀ pl, Out.bcast pl ∈ w'.out → Out.bcast pl ∈ w.out) ∧
+    (∀ b s, Out.block b s ∈ w'.out → Out.block b s ∈ w.out) := by
   have hfold : ∀ (l : List Nat) (nd : Node),
       let nd' := l.foldl (fun nd t => if nd.txs.contains t then nd else if getTx e nd t then { nd with txs := nd.txs ++ [t] }
         else { nd with missing := nd.missing ++ [t] }) nd
@@ -101,15 +108,16 @@ theorem processMissingTx_frame (e : Env) (w : W) :
   split
   · simp only [W.emit, W.upd]
     obtain ⟨a1, a2, a3, a4, a5, a6, a7, a8, a9, a10, a11⟩ := hf
-    refine ⟨a1, a2, a3, a4, a5, a6, a7, a8, a9, a10, a11, ?_⟩
-    intro pl hp; simpa using hp
+    refine ⟨a1, a2, a3, a4, a5, a6, a7, a8, a9, a10, a11, ?_, ?_⟩
+    · intro pl hp; simpa using hp
+    · intro b s hp; simpa using hp
   · obtain ⟨a1, a2, a3, a4, a5, a6, a7, a8, a9, a10, a11⟩ := hf
-    exact ⟨a1, a2, a3, a4, a5, a6, a7, a8, a9, a10, a11, fun _ hp => hp⟩
+    exact ⟨a1, a2, a3, a4, a5, a6, a7, a8, a9, a10, a11, fun _ hp => hp, fun _ _ hp => hp⟩
 
 theorem good_processMissingTx {e : Env} {as : State} {i : Nat} {w : W} (h : Good e as i w) :
     Good e as i (processMissingTx e w) := by
-  obtain ⟨a1, a2, a3, a4, a5, a6, a7, a8, a9, a10, a11, a12⟩ := processMissingTx_frame e w
-  exact h.congr a1 a2 a3 a4 a5 a6 a7 a8 a9 (by rw [a10]; exact id) a11 a12
+  obtain ⟨a1, a2, a3, a4, a5, a6, a7, a8, a9, a10, a11, a12, a13⟩ := processMissingTx_frame e w
+  exact h.congr a1 a2 a3 a4 a5 a6 a7 a8 a9 (by rw [a10]; exact id) a11 a12 a13
 
 theorem good_sendRecoveryRequest {e : Env} {as : State} {i : Nat} {w : W} (h : Good e as i w) :
     Good e as i (sendRecoveryRequest e w) := by
